@@ -57,9 +57,9 @@ type gen struct {
 
 func newGen(seed int64) *gen { return &gen{r: rand.New(rand.NewSource(seed))} }
 
-func (g *gen) intn(n int) int { return g.r.Intn(n) }
-func (g *gen) chance(num, den int) bool { return g.r.Intn(den) < num }
-func (g *gen) pick(xs ...int) int { return xs[g.r.Intn(len(xs))] }
+func (g *gen) intn(n int) int            { return g.r.Intn(n) }
+func (g *gen) chance(num, den int) bool  { return g.r.Intn(den) < num }
+func (g *gen) pick(xs ...int) int        { return xs[g.r.Intn(len(xs))] }
 func (g *gen) pickS(xs ...string) string { return xs[g.r.Intn(len(xs))] }
 
 // bytesN returns n bytes: random, or a repeated short pattern (compressible, shares prefixes)
